@@ -1,9 +1,12 @@
 """C01 - reverse-mode derivatives exact for every call configuration (catalogue walk + kink harness)."""
 from ..judges import harness_table, run_catalog
 from ..par import replay_generic
+from ..kinks import factory as kinks_factory
 
 PROP = "C01"
 HARNESSES = harness_table(PROP, families=("U", "B", "R", "S", "K", "W", "L"))
+
+HARNESSES["kinks"] = kinks_factory(PROP, "rev")
 
 
 def run(ctx):
